@@ -560,7 +560,7 @@ ml::params_t make_fit_params(vf::rng_t& rng, std::string& desc)
 void shared_model(vf::ctx_t& c, int T)
 {
     auto&      rng  = c.rng;
-    const auto n    = rng.integer(40, 90);
+    const auto n    = rng.integer(40, 70);
     const bool cls  = rng.chance(0.5);
     auto       ds   = vf_datasource_t{n, rng.next(), cls, 0.1};
     ds.load();
